@@ -574,9 +574,28 @@ func (n *NSQD) DeleteExistingTopic(topicName string) error {
 	verifPoint("topic.delete.beforeUnlink")
 	n.Lock()
 	delete(n.topicMap, topicName)
+	// the persist triggered by the Notify at the start of topic.Delete() usually ran
+	// while the topic was still in the map, so persist again now that it is unlinked
+	// (otherwise nsqd.dat keeps listing the deleted topic and a hard kill resurrects it)
+	if !topic.ephemeral {
+		n.persistMetadataAfterDelete()
+	}
 	n.Unlock()
 
 	return nil
+}
+
+// persistMetadataAfterDelete persists metadata once a deleted topic/channel
+// is no longer in its map. The caller holds the NSQD lock.
+func (n *NSQD) persistMetadataAfterDelete() {
+	// the in-memory metadata is incomplete while loading it (see Notify)
+	if atomic.LoadInt32(&n.isLoading) == 1 {
+		return
+	}
+	err := n.PersistMetadata()
+	if err != nil {
+		n.logf(LOG_ERROR, "failed to persist metadata - %s", err)
+	}
 }
 
 func (n *NSQD) Notify(v interface{}, persist bool) {
